@@ -222,9 +222,9 @@ def run(ctx):
     ctx.assumptions = ['"nothing else on disk changes" is observed through snapshots of the scratch tree']
     drv = common.Driver()
     try:
-        for i in range(250 if ctx.tier == 'quick' else 5000):
+        for i in range(600 if ctx.tier == 'quick' else 5000):
             one_case(ctx, drv)
-        for i in range(120 if ctx.tier == 'quick' else 3000):
+        for i in range(300 if ctx.tier == 'quick' else 3000):
             twin_case(ctx, drv)
     finally:
         drv.close()
